@@ -13,6 +13,7 @@
 //!   * the decoded value re-encodes to bytes that decode to the same bytes again (stability).
 use crate::common::*;
 use crate::enc::*;
+use opcua::types::BinaryEncoder;
 
 pub struct C01;
 pub static P: C01 = C01;
@@ -20,7 +21,7 @@ pub static P: C01 = C01;
 const SENTINEL: [u8; 5] = [0xA5, 0x17, 0x01, 0xFF, 0x80];
 
 fn generous() -> Lim {
-    Lim { max_str: 1 << 20, max_bytes: 1 << 20, max_arr: 1 << 16, max_depth: 64, max_msg: 0 }
+    Lim { max_str: 1 << 20, max_bytes: 1 << 20, max_arr: 1 << 16, max_depth: 64, max_msg: 0, named: 0 }
 }
 
 impl Prop for C01 {
@@ -143,6 +144,14 @@ pub fn roundtrip_oracle(v: &Val, bytes: &[u8], reported: Result<usize, opcua::ty
         // outside the property's quantifier
         return Verdict::Ok;
     }
+    let via_vec = match v {
+        Val::V(x) => x.encode_to_vec(),
+        Val::DV(x) => x.encode_to_vec(),
+        Val::DI(x) => x.encode_to_vec(),
+    };
+    if reported.is_ok() && via_vec != bytes {
+        return Verdict::fail("convenience_api", class, "encode_to_vec differs from encode");
+    }
     let size = match reported {
         Ok(s) => s,
         Err(e) => return Verdict::fail("encode_ok", class, format!("encode of a valid value failed: {}", e)),
@@ -189,6 +198,9 @@ pub fn roundtrip_oracle(v: &Val, bytes: &[u8], reported: Result<usize, opcua::ty
 /// a decoded structure: `byte_len` = bytes written = size reported, and its encoding decodes
 /// (followed by other bytes) to exactly itself
 fn struct_stable(name: &str, re: &[u8], byte_len: usize, reported: usize) -> Verdict {
+    if API_MISMATCH.swap(false, std::sync::atomic::Ordering::Relaxed) {
+        return Verdict::fail("convenience_api", name, "encode_to_vec / ExtensionObject::from_encodable / decode_inner disagree with encode");
+    }
     if byte_len != re.len() || reported != re.len() {
         return Verdict::fail("byte_len", name, format!("byte_len {} reported {} written {}", byte_len, reported, re.len()));
     }
